@@ -41,10 +41,15 @@ def run_one(sid, tier="quick"):
         open(os.path.join(d, "patch.diff"), "w").write(diff)
         print(sid, "patch rebased onto", sh(["git", "-C", "/repo", "rev-parse", "--short", "HEAD"])[1].strip())
     t0 = time.time()
+    evp = os.path.join(V, "evidence", pid + ".json")
+    saved = open(evp).read() if os.path.exists(evp) else None
     try:
         rc, out = sh(["./check", pid, "--tier", tier], cwd=V, timeout=3600)
     finally:
         sh(["git", "-C", "/repo", "checkout", "--", "."])
+        # the evidence file must describe the unchanged tree, not this seeded run
+        if saved is not None:
+            open(evp, "w").write(saved)
     viol = [l for l in out.splitlines() if l.startswith("VIOLATION")]
     res = {"seeded": sid, "property": pid, "tier": tier, "exit": rc, "caught": rc == 1 and bool(viol),
            "violation_lines": viol, "found_failing_input": any("no-failing-input-found" not in l for l in viol),
